@@ -120,7 +120,10 @@ impl PauliString {
     /// # Returns
     /// * `Vec<Gate>` - A vector of Gate structs representing the individual Pauli operators.
     pub fn to_gates(&self) -> Vec<Gate> {
-        self.ops.iter().map(|(qubit, op)| {
+        // in qubit order, so that the result does not depend on the hash map's iteration order
+        let mut sorted_ops: Vec<(&usize, &Pauli)> = self.ops.iter().collect();
+        sorted_ops.sort_by_key(|(qubit, _)| **qubit);
+        sorted_ops.into_iter().map(|(qubit, op)| {
             Gate::Operator(Box::new(*op), vec![*qubit], vec![])
         }).collect()
     }
